@@ -93,6 +93,11 @@ func (l *Ledger) Value(p PosKey) *big.Rat {
 // budget: one base unit (two, for two roundings) plus the relative error of 18-digit fixed-point
 // arithmetic scaled by the asset's staked total (DESIGN.md 4.2).
 func budget(tt *big.Rat, units int64, ulps int64) *big.Rat {
+	// never below 1e-15 of the scale: chains of 18-digit operations compound, and at 1e15 base units this
+	// is still one unit (so realistic magnitudes keep the "one base unit" reading of the properties)
+	if ulps < 1000 {
+		ulps = 1000
+	}
 	b := new(big.Rat).Mul(tt, big.NewRat(ulps, 1_000_000_000_000_000_000))
 	return b.Add(b, ratI64(units))
 }
